@@ -6,7 +6,7 @@
    index entries after the valid ones): all theorems are unbounded in sizes and chunk sizes. *)
 From Coq Require Import ZArith List Bool.
 From EV Require Import Res Arr Transform TransformSpec TransformBase TransformCat TransformLeaky TransformOrder TransformFixed
-  TransformNum TransformMisc TransformTs TransformTrim TransformBool TransformDate.
+  TransformNum TransformMisc TransformTs TransformTrim TransformBool TransformDate TransformFrac.
 Import ListNotations.
 Open Scope Z_scope.
 
@@ -131,6 +131,37 @@ Example ts_hypotheses_satisfiable :
   layout_ok (L_utc3 56) = true /\ civil_ok w_civil = true /\ layout_offset_us (L_utc3 56) = 0 /\
   fmt_ts (L_utc3 56) w_civil = [50;48;50;48;45;48;54;45;49;53;32;49;57;58;52;53;58;51;57;46;48;53;54;32;85;84;67].
 Proof. vm_compute. repeat split; reflexivity. Qed.
+
+(* (VC06) the same, read on the DIGIT STRING of the fraction: for every string ds of 1..3 digit bytes before " UTC",
+   and every string of 6 digit bytes before "+HH:MM" / "-HH:MM", the stored microseconds are ds read as a decimal
+   integer times 10^(6 - length) - exact integer arithmetic, no rounding, no digit string excepted.  (With offset
+   00:00 the right-hand side is the denoted instant; other offsets are ignored: F-C06b.) *)
+Theorem ts_fraction_digits_exact : forall c ds, civil_ok c = true -> all_digits ds = true ->
+  (1 <= len ds <= 3 ->
+     parse_timestamp_bytes (fmt_secs c ++ [46] ++ ds ++ SUF_UTC) = Ok (instant_us c (fraction_us ds))) /\
+  (len ds = 6 -> forall neg oh om,
+     parse_timestamp_bytes (fmt_secs c ++ [46] ++ ds ++ fmt_off neg oh om) = Ok (instant_us c (fraction_us ds))).
+Proof. exact ts_fraction_digits_exact_proof. Qed.
+Print Assumptions ts_fraction_digits_exact.
+
+(* ".000249" (one of the 11549 six-digit strings for which int(float("0.000249") * 10^6) is 248 in binary64) *)
+Example ts_fraction_hypotheses_satisfiable :
+  all_digits [48;48;48;50;52;57] = true /\ len [48;48;48;50;52;57] = 6 /\ fraction_us [48;48;48;50;52;57] = 249 /\
+  fraction_us [48;53] = 50000 /\
+  parse_timestamp_bytes (fmt_secs w_civil ++ [46] ++ [48;48;48;50;52;57] ++ fmt_off false 0 0) = Ok 1592250339000249.
+Proof. vm_compute. repeat split; reflexivity. Qed.
+
+(* a fraction is less than one second *)
+Theorem fraction_us_below_one_second : forall ds, all_digits ds = true -> len ds <= 6 -> 0 <= fraction_us ds < 1000000.
+Proof. exact fraction_us_range. Qed.
+Print Assumptions fraction_us_below_one_second.
+
+(* the code as it is: 4, 5 or 6 fraction digits before " UTC" (28..30 bytes; not a documented layout) are read as
+   "YYYY-MM-DD HH:MM:SS UTC" - the fraction is dropped *)
+Theorem ts_long_utc_fraction_dropped : forall c ds, civil_ok c = true -> 4 <= len ds <= 6 ->
+  parse_timestamp_bytes (fmt_secs c ++ [46] ++ ds ++ SUF_UTC) = Ok (instant_us c 0).
+Proof. exact frac_utc_long_dropped. Qed.
+Print Assumptions ts_long_utc_fraction_dropped.
 
 (* what is stored for EVERY accepted layout: the wall-clock reading taken as UTC (the offset is ignored) *)
 Theorem ts_layout_value : forall l c, layout_ok l = true -> civil_ok c = true ->
